@@ -28,6 +28,7 @@ Contracts == LET s == inst[1].s IN
    /\ \A n \in 0..4 : LET p == Shuffle(s, n) IN {p[k] : k \in 1..n} = 0..(n - 1)
    /\ \A n \in 1..4 : ChoiceU(s, n) \in 0..(n - 1)
    /\ \A w \in Ws : w[ChoiceW(s, w) + 1] > 0
+   /\ \A lo \in {-9, -4, -2, 0, 1, 4, 36}, wd \in {1, 2, 4, 7, 16} : UniformInBounds(Step(s), lo, lo + wd)    \* [min,max) on the grid, every state
 (* the code's comparison selects a zero-weight member only in the state whose uniform is 0 *)
 AsCodedZeroOnlyAtZero == LET s == inst[1].s IN \A w \in Ws : (w[ChoiceWAsCoded(s, w) + 1] = 0) => Step(s) = 0
 AsCodedAgreesElsewhere == LET s == inst[1].s IN \A w \in Ws : Step(s) # 0 => ChoiceWAsCoded(s, w) = ChoiceW(s, w)
